@@ -352,6 +352,10 @@ def observation(s):
         post = list(s.posterior(return_blobs=s.blobs is not None))
         if isinstance(post[0], dict):
             post[0] = [post[0][k] for k in sorted(post[0])]
+        if len(post[1]) == 0:
+            # an EMPTY view (discard on, nothing sampled yet) comes back as shape (0,) from the scalar
+            # route and (0, n_dim) from the vectorised one: no row, no difference in content
+            post[0] = 'no rows'
         obs = dict(posterior=post, log_z=s.log_z, n_eff=s.n_eff, n_like=s.n_like)
     d = core.digest(obs)
     summ = dict(log_z=None if s.log_z is None else float(s.log_z), n_eff=float(s.n_eff),
@@ -404,6 +408,12 @@ def explore(scn, alphabet, monitors, R=1, T=0, S=0, max_states=4000, loops=None,
                 new, ctx = eng.apply(st, act)
                 if new is None:
                     res['exceptions'] += 1
+                    if ctx['exc'] and ctx['exc'][0] == 'Hang':
+                        # already a reported violation; every further hang would cost a full
+                        # watchdog period, so this exploration stops here (not exhaustive)
+                        res['capped'] = 'hang after {}'.format(list(st.path) + [act])[:200]
+                        frontier.clear()
+                        break
                     continue
                 if new.terminal:
                     s = ctx['post']
